@@ -215,7 +215,7 @@ pub fn iterstates(a: &Args, rep: &mut Report) {
     for h in 0..sh.n {
         let mut hr = rng.fork();
         let size = if cfg!(miri) { *hr.pick(&[3usize, 14]) } else { *hr.pick(&[0usize, 1, 5, 14, 15, 20, 29, 40, 61, 100]) };
-        let state = hr.below(7);
+        let state = crate::sweep::draw_state(&mut hr);
         let elem = *hr.pick(&[ElemKind::TrInline, ElemKind::TrHeap, ElemKind::U64]);
         let cfg = Cfg { elem, bh: Bh::new(*hr.pick(&[HMode::Good, HMode::Identity, HMode::SameTag]), hr.below(3)), cap: usize::MAX, check_every: 1, cursor_every: 1, focus, ledger_only: false };
         // the length the state will have is not known before building: use generous prefixes
@@ -329,7 +329,7 @@ pub fn limits(a: &Args, rep: &mut Report) {
             continue;
         }
         let size = *hr.pick(&[0usize, 1, 3, 7, 9, 14, 15, 20, 28, 29, 40, 57, 100]);
-        let state = hr.below(7);
+        let state = crate::sweep::draw_state(&mut hr);
         let elem = *hr.pick(&[ElemKind::U64, ElemKind::U64, ElemKind::TrInline]);
         let cfg = Cfg { elem, bh: Bh::new(*hr.pick(&[HMode::Good, HMode::Identity]), hr.below(3)), cap: usize::MAX, check_every: 16, cursor_every: 4, focus, ledger_only: false };
         if let Some(f) = &mut tfile {
@@ -1001,7 +1001,7 @@ pub fn dropbomb(a: &Args, rep: &mut Report) {
     for h in 0..sh.n {
         let mut hr = rng.fork();
         let size = if cfg!(miri) { *hr.pick(&[4usize, 15]) } else { *hr.pick(&[2usize, 5, 14, 15, 20, 29, 40, 61, 100]) };
-        let state = hr.below(7);
+        let state = crate::sweep::draw_state(&mut hr);
         let cfg = Cfg { elem: ElemKind::TrHeap, bh: Bh::new(*hr.pick(&[HMode::Good, HMode::Identity]), hr.below(3)), cap: usize::MAX, check_every: 1, cursor_every: 1, focus, ledger_only: false };
         let mut s: Sess<T, T> = Sess::new(&cfg);
         let mut next = 1000;
